@@ -304,6 +304,24 @@ def _reps2_case(draw, cplx):
     return c
 
 
+@st.composite
+def _reps2_parity_case(draw):
+    """2 x 2 questions, 2 x 2 answers, XOR-like predicates: the family on which the value of the repeated game exceeds the
+    square of the single-round value (65 536 answer-function pairs in the repeated game: a few seconds per case)."""
+    r = draw(st.integers(1, 2))
+    c = draw(_random_game(r=r, na=2, nb=2))
+    c["cplx"] = draw(st.booleans()) if r == 2 else False
+    c["X"], c["Y"] = 2, 2
+    c["zero"] = 0
+    c["counts"] = draw(st.sampled_from([[16, 16, 16, 16], [16, 16, 16, 16], [20, 12, 16, 16], [12, 20, 20, 12], [24, 8, 16, 16]]))
+    flip = [draw(st.integers(0, 1)) for _ in range(3)]
+    # odd-parity (CHSH-type) tables: x & y up to relabelling of questions and of the answer bit
+    c["parity"] = [[(((x ^ flip[0]) & (y ^ flip[1])) ^ flip[2]) for y in range(2)] for x in range(2)]
+    c["leak"] = draw(st.sampled_from([0.0, 0.0, 0.25]))
+    c["common"] = draw(st.booleans())
+    return c
+
+
 def check_reps2(case):
     from toqito.nonlocal_games.extended_nonlocal_game import ExtendedNonlocalGame
 
@@ -755,6 +773,7 @@ _T = 60.0
 SUBCHECKS = [
     SubCheck("unentangled_bruteforce", check_unentangled, _mix(_named_game(_ALL_NAMED), _random_game()), nt_game, quick=400, thorough=4000, shards=8, case_timeout=_T),
     SubCheck("reps2_unentangled", check_reps2, lambda: _reps2_case(False), nt_reps2, quick=32, thorough=320, shards=4, case_timeout=_T),
+    SubCheck("reps2_parity", check_reps2, _reps2_parity_case, lambda c: f"parity:r={c['r']},leak={c['leak']},common={c['common']}", quick=16, thorough=160, shards=8, case_timeout=_T),
     SubCheck("reps2_complex", check_reps2, lambda: _reps2_case(True), nt_reps2, quick=12, thorough=120, shards=2, case_timeout=_T),
     SubCheck("ns_value", check_ns, _mix(_named_game(_ALL_NAMED), _random_game(), 1, 3), nt_game, quick=128, thorough=1300, case_timeout=_T),
     SubCheck("npa_sound_square", check_npa_sound, _npa_square, nt_game, quick=96, thorough=1000, case_timeout=_T),
